@@ -172,6 +172,9 @@ func c17alphabet(full bool) []Choice {
 			}
 		}
 	}
+	// the DAO owner cleared (JSON null) by the owner of that parameter: afterwards nobody is the DAO owner
+	cs = append(cs, txB(fmt.Sprintf("change(gov/daoOwner,by=k%d,null)", gOwner), chain.TxSpec{Msg: "change_param", From: gOwner, Key: "gov/daoOwner", Val: `null`}))
+	cs = append(cs, txB(fmt.Sprintf("change(gov/daoOwner,by=k%d,empty string)", gOwner), chain.TxSpec{Msg: "change_param", From: gOwner, Key: "gov/daoOwner", Val: `""`}))
 	// an ACL that lists a key twice with different addresses (accepted by ACL.Validate): everybody
 	// the list does not name for a key is still a stranger for it
 	dup := govTypes.ACL(make([]govTypes.ACLPair, 0))
@@ -292,6 +295,13 @@ func RunGovHistory(cfg chain.Config, prelude, blocks []chain.Block) HistResult {
 			// a value that does not decode into the parameter's type must change nothing, whoever sends it
 			if t.Msg == "change_param" && len(changed) > 0 && !c17wellFormed(t.Key, resolvedVal(t, before)) {
 				report("change_param|malformed-value-changed-state|by-"+role, fmt.Sprintf("%s at height %d: the value does not decode into the type of %s, yet stored parameters changed: %v (%q -> %q)", t, dd.Height+1, t.Key, changed, before.Params[t.Key], after.Params[t.Key]))
+			}
+			// an accepted change stores the value that was sent (and not, say, the old one)
+			if t.Msg == "change_param" && ok && isOwner {
+				sent := resolvedVal(t, before)
+				if c17wellFormed(t.Key, sent) && normJSON([]byte(after.Params[t.Key])) != normJSON([]byte(sent)) {
+					report("change_param|accepted-but-another-value-stored", fmt.Sprintf("%s at height %d returned code 0 but %s now holds %.120s, the message carried %.120s", t, dd.Height+1, t.Key, after.Params[t.Key], sent))
+				}
 			}
 			if target != "" && !isOwner && ok {
 				report(fmt.Sprintf("%s|non-owner-accepted", t.Msg), fmt.Sprintf("%s at height %d by a non-owner returned code 0", t, dd.Height+1))
